@@ -183,6 +183,8 @@ Fillers == {
   F("blk_then_eol", "lc", " /* c1 */ # c2\n"),
   F("own_blk_then_eol", "lc", "\n/* c1 */ # c2\n"),
   F("inline", "ic", " /* c1 */ "),
+  F("blk_empty", "ic", " /**/ "),
+  F("doc_empty_own", "lc", "\n/***/\n"),
   F("inline2", "ic", " /* c1 */ /* c2 */ "),
   F("utf8", "lc", "\n# @U@\n")
 }
